@@ -616,7 +616,7 @@ func identityLeaves(v *V) []string {
 }
 
 func callEventArgs(recv *V, args []*V, res []*V) []string {
-	out := make([]string, 8)
+	out := make([]string, 12)
 	for i := range out {
 		out[i] = "0"
 	}
@@ -639,7 +639,7 @@ func callEventArgs(recv *V, args []*V, res []*V) []string {
 	j := 5
 	for _, v := range res {
 		for _, l := range intLeaves(v) {
-			if j > 7 {
+			if j > 11 {
 				break
 			}
 			out[j] = l
